@@ -23,7 +23,7 @@ type rcReq struct {
 	Kind  string   // "p0" "p1" "p2" "sub" "unsub"
 	Tag   string   // payload (publish)
 	Subs  []string // filters (sub: "filter:qos")
-	Phase byte     // 'B' before Connect, 'S' connected after settling, 'N' connected immediately, 'O' when the current link is down, 'H' during the next reconnect handshake (CONNECT written, CONNACK not yet consumed)
+	Phase byte     // 'B' before Connect, 'S' connected after settling, 'N' connected immediately, 'O' when the current link is down, 'H' during the next reconnect handshake (CONNECT written, CONNACK not yet consumed), 'T' 15 s later, 'U' 11 s later
 	Dup   bool     // publish: the caller's Message already has Dup=true (a forwarded / reused message)
 	ID    uint16   // publish: identifier the caller put on the message (0: let the client choose)
 }
@@ -62,6 +62,7 @@ type rcCfg struct {
 	KeepAliveOpt     uint16         // mqtt.WithKeepAlive(seconds) connect option (the reconnecting client derives its ping interval from it)
 	CancelConnectCtx bool           // Connect gets a cancellable context which the application cancels as soon as Connect has returned (the usual `defer cancel()`)
 	GrantMax         *byte          // the broker grants at most this QoS in SUBACK (nil: what was requested)
+	PipeErrors       bool           // a locally closed transport reports io.ErrClosedPipe (net.Pipe) instead of a socket-style *net.OpError wrapping net.ErrClosed
 	HandleInState    bool           // the application (re-)registers its handler from inside the ConnState callback, on every StateActive
 	Manual           bool           // no ReconnectClient: the application drives a bare RetryClient itself (dial, SetClient, Connect, Resubscribe, Retry, wait for Done, redial)
 }
@@ -157,6 +158,7 @@ func rcExecuteInto(cfg *rcCfg, out **rcRun) *rcRun {
 	r := &rcRun{cfg: cfg}
 	*out = r
 	r.net = env.NewNet()
+	r.net.PipeErrors = cfg.PipeErrors
 	r.broker = env.NewBroker(r.net)
 	r.broker.Faults = cfg.Faults
 	r.broker.KeepSession = cfg.KeepSession
@@ -270,6 +272,8 @@ func rcExecuteInto(cfg *rcCfg, out **rcRun) *rcRun {
 				})
 			case 'T':
 				vrt.Sleep(int64(15 * time.Second))
+			case 'U':
+				vrt.Sleep(int64(11 * time.Second)) // one second after the first keep-alive tick of a 10 s interval
 			case 'H':
 				k := len(r.net.Conns)
 				vrt.Observe(uint64(k))
